@@ -204,7 +204,8 @@ def check_popen_wait(c, f):
     sv_l = lin(val(sr, 'signalstatus'), f, keep=(sv,)) if val(sr, 'signalstatus') is not None else None
     c.check(sv_l is not None and sv_l == Lin(0, {sv: -1}), f, t.ast, 'signal branch: signalstatus = -returncode', witness='%r' % sv_l, kind='alg', tag='sig-signalstatus')
     term = [n for n in g.nodes if n.kind == 'stmt' and stmt_assigns_attr(n.ast, 'terminated') is not None and is_const(n.ast.value, True)]
-    c.check(len(term) == 1 and g.dominated_by(g.exit, {term[0]})[0], f, term[0].ast if term else None, 'terminated = True on every path', tag='terminated')
+    others = [n for n in g.nodes if n.kind == 'stmt' and stmt_assigns_attr(n.ast, 'terminated') is not None and n not in term]
+    c.check(bool(term) and not others and g.dominated_by(g.exit, set(term))[0], f, term[0].ast if term else None, 'terminated = True on every path', tag='terminated')
     rets = returns(f)
     c.check(len(rets) == 1 and is_name(rets[0].ast.value, sv), f, rets[0].ast if rets else None, 'returns the return code', kind='ast', tag='returns')
 
